@@ -43,6 +43,8 @@ def pol_term(p):
         return C("PEvent", None if len(p) == 1 else Some(C(p[1])))
     if k in ("Any", "Constant"):
         return C("P" + k, p[1])
+    if k == "List":
+        return C("PList")
     if k == "Map":
         return C("PMap", [(a, b) for a, b in p[1]], p[2])
     return C("PTyped", C(p[1]), p[2])
@@ -92,15 +94,28 @@ def to_term(case, obs):
 
 # ----- failure signatures ----------------------------------------------------
 def live_instance_trait(case, step, name):
-    pol = None
+    """The instance trait governing `name` at `step` on the object of that step: add_trait also installs
+    the sub-traits name_ (Map) and name_items (List: an Event), remove_trait removes them again."""
+    pols = {}
+
+    def derived(n, p):
+        if p[0] == "Map":
+            return {n + "_": ["Shadow"]}
+        if p[0] == "List":
+            return {n + "_items": ["Event"]}
+        return {}
     for op in case["ops"][:step]:
-        if op[1] != name or who(op) != who(case["ops"][step]):
+        if who(op) != who(case["ops"][step]):
             continue
         if op[0] == "Add":
-            pol = op[2]
+            pols.update(derived(op[1], op[2]))
+            pols[op[1]] = op[2]
         elif op[0] == "Rem":
-            pol = None
-    return pol
+            p = pols.pop(op[1], None)
+            if p is not None:
+                for k in derived(op[1], p):
+                    pols.pop(k, None)
+    return pols.get(name)
 
 
 def stored_before(case, obs, step, name):
@@ -336,13 +351,13 @@ MAP_VALUES = [1, 2, 3, 6, 5, 11, 12, 101, 200]
 def mapped_history(h, rnd, ctx, maxlen):
     """add_trait / remove_trait of mapped traits (Map: shadow name_), probes of name and name_ before and after."""
     bases = rnd.sample(["ab", "a", "b", "_a", "ba", "m", "_m", "a_b"], rnd.randint(1, 2))
-    names = [x for b in bases for x in (b, b, b + "_", b + "_")] + [bases[0] + "a"]
+    names = [x for b in bases for x in (b, b, b + "_", b + "_", b + "_items")] + [bases[0] + "a"]
     ops = []
     for _ in range(rnd.randint(4, maxlen)):
         n = rnd.choice(names)
         r = rnd.random()
-        if not n.endswith("_") and r < 0.22:
-            op = ["Add", n, rnd.choice(MAPS)]
+        if not n.endswith("_") and not n.endswith("_items") and r < 0.22:
+            op = ["Add", n, rnd.choice(MAPS + [["List"]])]
         elif not n.endswith("_") and r < 0.36:
             op = ["Rem", n]
         elif r < 0.42:
@@ -355,7 +370,7 @@ def mapped_history(h, rnd, ctx, maxlen):
             op = ["Set", n, rnd.choice(MAP_VALUES)]
         else:
             op = ["Del", n]
-        ctx.count("mapped-op:" + op[0] + ("-Map" if op[0] == "Add" and op[2][0] == "Map" else ""))
+        ctx.count("mapped-op:" + op[0] + ("-" + op[2][0] if op[0] == "Add" and op[2][0] in ("Map", "List") else ""))
         ops.append(op + ["B"] if rnd.random() < 0.15 else op)
     return dict(h, ops=ops, kind="mapped")
 
@@ -407,6 +422,13 @@ def corpus():
                                 ["Get", "ab_"], ["Set", "ab", 5], ["Rem", "ab"], ["Get", "ab_"], ["Set", "ab_", 1],
                                 ["Get", "ab"], ["Add", "ab", MAPS[1]], ["Get", "ab_"], ["Del", "ab"], ["Rem", "ab"],
                                 ["Get", "ab_"], ["Get", "ab"]]))
+    # List instance trait: the name_items event trait comes and goes with it
+    for root in (0, 1, 2):
+        cs.append(dict({"classes": [{"decls": [["b_", ["Any", 5]]], "bases": [root]}], "cls": 3}, kind="corpus",
+                       ops=[["Get", "ab_items"], ["Add", "ab", ["List"]], ["Get", "ab"], ["Get", "ab_items"],
+                            ["Set", "ab_items", 1], ["Del", "ab_items"], ["Set", "ab", 5], ["Rem", "ab"], ["Get", "ab_items"],
+                            ["Set", "ab_items", 1], ["Get", "ab"], ["Add", "b", ["List"]], ["Get", "b_items"], ["Rem", "b"],
+                            ["Get", "b_items"]]))
     # a mapped trait declared in the class body (class_traits[name + "_"], has_traits.py l.488-491)
     cs.append(dict({"classes": [{"decls": [["ab", MAPS[0]]], "bases": [1]}, {"decls": [], "bases": [3]}], "cls": 4},
                    kind="corpus", ops=[["Get", "ab_"], ["Get", "ab"], ["Set", "ab", 2], ["Get", "ab_"], ["Set", "ab", 101],
@@ -453,7 +475,7 @@ def run(ctx):
         else:
             hiers = fixed + [gen_hierarchy(rnd, ctx) for _ in range(60)]
             names = ALL_NAMES
-            nhist, maxlen, group, nstaged = 8000, 30, 6, 3000
+            nhist, maxlen, group, nstaged = 6000, 30, 6, 2000
             ctx.cov["exhaustive"] = True
         cases = corpus() + probe_cases(hiers, names, group, ctx, rnd)
         pool = fixed + [gen_hierarchy(rnd, ctx) for _ in range(60 if ctx.tier == "quick" else 600)]
@@ -467,6 +489,11 @@ def run(ctx):
         ctx.count("probes(ops)", len(c["ops"]))
     for c in cases[:2] + cases[-2:]:
         ctx.sample(c)
-    hist.run(ctx, "c13_driver.py", cases, to_term, HEADER, CASE_T, key_fn, describe, nontrivial,
-             relation="C13.Corr.corr_codes (Model.step = HasTraits attribute access on every step)")
+    # batches of 7 shards: a coqc on a 1000-case shard needs up to 1.8 GB, and the machine is shared
+    BATCH = 7000
+    for b in range(0, len(cases), BATCH):
+        hist.run(ctx, "c13_driver.py", cases[b:b + BATCH], to_term, HEADER, CASE_T, key_fn, describe, nontrivial,
+                 relation="C13.Corr.corr_codes (Model.step = HasTraits attribute access on every step)"
+                          + (" [cases %d-%d]" % (b, min(len(cases), b + BATCH) - 1) if len(cases) > BATCH else ""),
+                 tag="cases%d" % (b // BATCH))
     proof_gate(ctx, ok, log, PROPS)
